@@ -487,6 +487,7 @@ def load_cases(run, tier, seed):
             return []
         run.add_tlc("PotExpr_quick", res)
         cases = tlc.read_ndjson(os.path.join(res.outdir, "cases.ndjson"))
+        _POWVAR[:] = tlc.read_ndjson(os.path.join(res.outdir, "powvar.ndjson"))
     finally:
         tlc.cleanup(res)
     # depth 2 by simulation: behaviours of the grammar, finished trees printed by the EmitCase invariant
@@ -508,6 +509,61 @@ def load_cases(run, tier, seed):
     finally:
         tlc.cleanup(res)
     return cases
+
+
+_POWVAR = []
+
+
+def powvar_check(run):
+    """pow(a, b) with an exponent that varies with r (PowVarCases of PotExpr.tla): through the Python API and through potable
+    text; exact where a(r) = 1, otherwise the power rule evaluated in floating point from the exact jets of a and b"""
+    import math
+    for ci, c in enumerate(_POWVAR):
+        la, lb = c["base"], c["exp"]
+        da = dict(t="def", rs=[dict(ty=">=", s=0, it=la)])
+        db = dict(t="def", rs=[dict(ty=">=", s=0, it=lb)])
+        text = "[Tabulation]\ntarget : LAMMPS\nnr : 5\ncutoff : 4.0\n\n[Potential-Form]\n%s\n\n[Pair]\nA-B : >=0 pow(%s, %s)\n" % (FORMS, def_text(da, 1), def_text(db, 1))
+        what = "pow(%s, %s)" % (def_text(da, 1), def_text(db, 1))
+        try:
+            g = Configuration().read(io.StringIO(text)).potentials[0].potentialFunction
+            f = AP.pow(api_def(da), api_def(db))
+        except Exception as e:
+            run.violation(dict(engine="algebra", clause="well-formed-definition-refused"), "[well-formed-definition-refused] %s: %s: %s" % (what, type(e).__name__, str(e)[:200]), dict(case=c))
+            continue
+        analytic = la["kind"] != "formula" and lb["kind"] != "formula"
+        for row in c["rows"]:
+            if not row["positive"] or row["x"] == 0:
+                continue
+            x = float(row["x"])
+            a, a1, a2 = (float(fr(row["a"][k])) for k in ("v", "d1", "d2"))
+            b, b1, b2 = (float(fr(row["b"][k])) for k in ("v", "d1", "d2"))
+            if row["one"]:
+                v, v1, v2 = (float(fr(row["e"][k])) for k in ("v", "d1", "d2"))
+            else:
+                la_ = math.log(a)
+                v = a ** b
+                q = b1 * la_ + b * a1 / a
+                v1 = v * q
+                v2 = v * (q * q + b2 * la_ + 2 * a1 * b1 / a + b * a2 / a - b * a1 * a1 / (a * a))
+            scale = 1.0 + abs(v) + abs(v1) + abs(v2)
+            for route, h in (("the Python API", f), ("potable text", g)):
+                run.evaluations += 1
+                got = h(x)
+                if _MODE == "C09":
+                    if abs(got - v) > 1e-10 * scale:
+                        run.violation(dict(engine="algebra", clause="value"), "[value] %s through %s at r=%s = %r, a(r)**b(r) = %r" % (what, route, x, got, v), dict(case=c, row=row))
+                        break
+                    continue
+                for name, want, tol in (("deriv", v1, 1e-9 if analytic else 1e-5), ("deriv2", v2, 1e-9 if analytic else 5e-3)):
+                    if not hasattr(h, name):
+                        continue         # "whenever a callable offers deriv or deriv2": nothing is claimed about what it does not offer
+                    dv = getattr(h, name)(x)
+                    if abs(dv - want) > tol * scale:
+                        run.violation(dict(engine="algebra", clause=name), "[%s] %s through %s: .%s(%s) = %r, the derivative of a(r)**b(r) is %r%s" % (
+                            name, what, route, name, x, dv, want, " (exact: a(r) = 1)" if row["one"] else ""), dict(case=c, row=row))
+                        break
+        run.replayed += 1
+        run.distinct("powvar:%d" % ci)
 
 
 def depth_of(d):
@@ -534,6 +590,8 @@ def main(prop, tier, seed):
         if prop == "C07" and not run.machinery_errors:
             from engines import forms
             forms.run_forms(run, "derivs")
+        if not run.machinery_errors:
+            powvar_check(run)
         if not run.machinery_errors:
             _CASES = cases
             with mp.Pool(min(16, os.cpu_count() or 1)) as pool:
